@@ -34,6 +34,8 @@ def run(ctx):
     R7 = ctx.rule('C02.R7', 'application code is called inside try/catch(...) that turns exceptions into a status')
     R8 = ctx.rule('C02.R8', 'FastCGI continuations report success only for the expected record type / version / role')
     R10 = ctx.rule('C02.R10', 'request preparation on the event-loop thread cannot throw: no throw expression and no checked (throwing) standard accessor is reachable from context::on_headers_ready / on_content_progress / on_request_ready outside a try block')
+    R11 = ctx.rule('C02.R11', 'the per-connection string pool (request environment, reused across keep-alive requests): the bump pointer is only ever re-armed with page_size_ bytes on a page that was allocated with page_size_ bytes')
+    R12 = ctx.rule('C02.R12', 'the open-addressing table of the request environment always keeps an empty slot (total_ < data_.size() is an invariant of add / clear / the constructor), so the probe loops of get() and insert() terminate for every key')
     R9 = ctx.rule('C02.R9', 'the cookie scanner makes progress on every input (no byte string can stall the event loop)')
 
     # ---------------- R1
@@ -378,6 +380,106 @@ def run(ctx):
     ctx.require(any(w == 'throw' for (w, _, _) in ctl_o), 'C02.R10: the throw detector no longer matches its positive control context::async_flush_output')
     ctx.check(True, R10, 'detector:positive-control:async_flush_output', loc=PX.fn('cppcms::http::context::async_flush_output').where)
     ctx.assume('library calls without an analysed body are taken not to throw except the listed checked accessors; allocation failure is out of scope; virtual calls (application code, filters) are covered by C02.R7')
+
+    # ---------------- R11 string_pool: which pages may be re-armed as the current page
+    SP = 'cppcms::impl::string_pool'
+    spf = [f for f in P.fns.values() if f.brecord == SP and f.entry is not None]
+    ctx.require(len(spf) >= 5, 'C02.R11: string_pool not found in the analysed units')
+
+    def malloc_kinds(f):
+        """local variable -> 'std' (malloc of sizeof(page)+page_size_) | 'big' (any other malloc)"""
+        out = {}
+        for i in f.all_nodes():
+            if f.N(i)['k'] == 'DeclStmt':
+                for d in f.N(i)['decls']:
+                    if d.get('init') is not None:
+                        mc = [j for j in f.calls(d['init']) if f.callee(j) == 'malloc']
+                        if mc:
+                            refs = [model.strip_targs(r).rsplit('::', 1)[-1] for r in f.subtree_refs(f.args(mc[0])[0])]
+                            pars = [r for r in f.subtree_refs(f.args(mc[0])[0]) if r.startswith(('p:', 'v:'))]
+                            out[d['ref']] = 'std' if ('page_size_' in refs and not pars) else 'big'
+        return out
+    # kind of every value stored into the list head `pages_`
+    head_kinds = []
+    for f in spf:
+        mk = malloc_kinds(f)
+        for w in q.field_writes(f, 'string_pool::pages_'):
+            n = f.N(w)
+            rhs = n['ch'][1] if n['k'] == 'BinaryOperator' and n.get('op') == '=' else None
+            if rhs is None:
+                head_kinds.append((f, w, 'other'))
+                continue
+            r = f.ref_of(rhs)
+            if r in mk:
+                kind = mk[r]
+            elif f.const_value(rhs) == 0:
+                kind = 'null'
+            elif any(model.strip_targs(x).endswith('page::next') for x in f.subtree_refs(rhs)):
+                kind = 'next'          # some later node of the list: may be an over-sized block
+            else:
+                kind = 'other'
+            head_kinds.append((f, w, kind))
+    # over-sized blocks are linked behind the head, so a `next` node can be one
+    big_linked_behind_head = any(mk_ == 'big' for f in spf for mk_ in malloc_kinds(f).values())
+    rearm = [(f, w) for f in spf for w in q.field_writes(f, 'string_pool::free_space_')
+             if f.N(w)['k'] == 'BinaryOperator' and f.N(w).get('op') == '=' and any(model.strip_targs(x).endswith('string_pool::page_size_') for x in f.subtree_refs(f.N(w)['ch'][1]))]
+    ctx.check(len(rearm) >= 2, R11, 'string_pool:re-arm-sites', 'expected the sites that reset free_space_ to page_size_', spf[0].where)
+    for (f, w) in rearm:
+        mk = malloc_kinds(f)
+        dws = [x for x in q.field_writes(f, 'string_pool::data_') if f.N(x)['k'] == 'BinaryOperator' and f.N(x).get('op') == '=' and f.point_of(x) and f.point_of(x)[0] == f.point_of(w)[0]]
+        ok = len(dws) == 1
+        why = 'free_space_ is reset without pointing data_ at the start of a page'
+        if ok:
+            src = f.N(dws[0])['ch'][1]
+            roots = [r for r in f.subtree_refs(src) if r.startswith('v:') or model.strip_targs(r).endswith('string_pool::pages_')]
+            if any(r in mk for r in roots):
+                ok = all(mk[r] == 'std' for r in roots if r in mk)
+                why = 'the bump pointer is re-armed with page_size_ bytes on a block of another size'
+            else:
+                # through the list head: fine only if the head is always a standard page *at this point*: in this function no
+                # `next` node was made the head before, or no over-sized block can sit in the list
+                moved = [hk for hk in head_kinds if hk[0] is f and hk[2] in ('next', 'other') and q.reaches(f, hk[1], w)]
+                ok = not (moved and big_linked_behind_head)
+                why = ('the page kept for reuse is whatever node ended up at the head of the list after `pages_ = pages_->next`: an over-sized block '
+                       '(allocated with its own size and linked behind the head) is then re-armed with page_size_ bytes - later requests on the connection write past it')
+        ctx.check(ok, R11, 'string_pool::%s:re-armed-page-has-page_size_-bytes' % f.short, why, f.loc(w))
+    ctx.floor(R11, 3)
+
+    # ---------------- R12 string_map load factor (termination of the probe loops on the event-loop thread)
+    from vlib import lin as _lin
+    SM = 'cppcms::impl::string_map'
+    sadd = [f for f in P.fns.values() if f.brecord == SM and f.short == 'add' and f.entry is not None]
+    ctx.require(len(sadd) == 1, 'C02.R12: string_map::add not found')
+    sadd = sadd[0]
+    S = q.symb_with_locals(sadd)
+    T, SZ = 'this.f:%s::total_' % SM, 'this.f:%s::data_.size()' % SM
+    ifs = [i for i in sadd.walk() if sadd.N(i)['k'] == 'IfStmt' and any(model.strip_targs(r).endswith('string_map::total_') for r in sadd.subtree_refs(sadd.N(i)['cond']))]
+    inc = q.incdec_of_field(sadd, 'string_map::total_', ('++',)) + [w for w in q.field_writes(sadd, 'string_map::total_') if sadd.N(w)['k'] == 'CompoundAssignOperator']
+    ok = len(ifs) == 1 and len(inc) == 1
+    detail = {}
+    if ok:
+        cond = sadd.N(ifs[0])['cond']
+        t, sz = Lin.atom(T), Lin.atom(SZ)
+        inv = [ge(t), ge(sz - Lin.const(64)), ge(sz - t - Lin.const(1))]          # 0 <= total_ < size, size >= 64 (initial size, only doubled)
+        # no growth: the negated condition must leave room for one more entry and still one empty slot
+        stay = S.rel(cond, False)
+        ok_stay = stay is not None and _lin.implies(inv + stay, ge(sz - t - Lin.const(2)))
+        # growth: the new table is built with a size expression in terms of the old size; total_ + 1 < new size
+        grow = [i for i in sadd.calls(sadd.N(ifs[0])['then']) if sadd.N(i)['k'] == 'CXXConstructExpr' and 'std::vector' in (sadd.callee(i) or '') and sadd.args(i)]
+        ok_grow = len(grow) == 1
+        if ok_grow:
+            nsz = S.lin(sadd.args(grow[0])[0])
+            ok_grow = _lin.implies(inv + (S.rel(cond, True) or []), ge(nsz - t - Lin.const(2))) and _lin.implies(inv, ge(nsz - sz))
+            detail['new_size'] = repr(nsz)
+        detail.update({'no-growth facts': [repr(c[1]) for c in (stay or [])], 'stay': ok_stay, 'grow': ok_grow})
+        ok = ok_stay and ok_grow
+    ctx.check(ok, R12, 'string_map::add:an-empty-slot-remains', 'after add() the table can be completely full: the next lookup of an absent key (HTTP_HOST, HTTP_COOKIE ... on the event-loop thread) never terminates', sadd.where, detail=detail)
+    for f in [g for g in P.fns.values() if g.brecord == SM and (g.kind == 'ctor' or g.short == 'clear') and g.entry is not None]:
+        rs = [i for i in q.field_calls(f, 'string_map::data_', 'resize')]
+        tw = [w for w in q.field_writes(f, 'string_map::total_') if f.const_value(f.N(w)['ch'][1]) == 0]
+        ctx.check(len(rs) >= 1 and all((f.const_value(f.args(i)[0]) or 0) >= 64 for i in rs) and len(tw) == 1, R12, 'string_map::%s:starts-empty-with-64-slots' % (f.short if f.kind != 'ctor' else 'string_map()'),
+                  'the table does not start with total_ = 0 and at least 64 slots', f.where)
+    ctx.floor(R12, 3)
     ctx.floor(R9, 2)
     ctx.floor(R6, 7)
     ctx.floor(R8, 5)
